@@ -97,4 +97,47 @@ def writtenCells (mode p : Nat) (o : Rat) (ktc : List (Key × (Nat × Nat))) (pa
 def importedCells (imp : Imported) : List ((Int × Nat × Int) × (Option Nat × Int)) :=
   imp.parts.flatMap fun e => e.2.notes.map fun n => ((n.1, n.2.1, n.2.2.1), ((some e.1 : Option Nat), n.2.2.2))
 
+-- ------------------------------------------------------------------ the property's domain, on the score
+
+/-- a sounding note of the score on its way to a track: (time base of its part, start, tied duration, channel, pitch) -/
+abbrev ScoreRow := TimeBase × Nat × Nat × Nat × Nat
+
+/-- the sounding notes the (track, channel) table `ktc` sends to track `tr`, part after part, note after note -/
+def routedRows (ktc : List (Key × (Nat × Nat))) (parts : List PartIn) (tr : Nat) : List ScoreRow :=
+  (parts.zipIdx).flatMap fun xi => xi.1.notes.filterMap fun n =>
+    match lookup (xi.1.group, xi.2, n.2.2.2) ktc with
+    | some (t, ch) => if t = tr then some (xi.1.base, n.1, n.2.1, ch, n.2.2.1) else none
+    | none => none
+
+/-- onset / end of a row in quarter notes (`Part.quarter_map`) -/
+def qOn (r : ScoreRow) : Rat := quarter r.1 r.2.1
+def qOff (r : ScoreRow) : Rat := quarter r.1 (r.2.1 + r.2.2.1)
+
+/-- two notes of one channel and pitch do not overlap in musical time: positive durations are disjoint as half-open
+    intervals (touching is allowed), a note of no duration (grace note) is not strictly inside a sounding one -/
+def MusCompat (m n : ScoreRow) : Prop :=
+  (m.2.2.2.1, m.2.2.2.2) = (n.2.2.2.1, n.2.2.2.2) →
+    ((qOn m < qOff m ∧ qOn n < qOff n) → (qOff m ≤ qOn n ∨ qOff n ≤ qOn m)) ∧
+    ((qOn m < qOff m ∧ qOn n = qOff n) → ¬ (qOn m < qOn n ∧ qOn n < qOff m)) ∧
+    ((qOn n < qOff n ∧ qOn m = qOff m) → ¬ (qOn n < qOn m ∧ qOn m < qOff n))
+
+instance (m n : ScoreRow) : Decidable (MusCompat m n) := by unfold MusCompat; infer_instance
+
+/-- **the property's domain**: no two notes of equal pitch overlap within one track / channel of the mode -/
+def ScoreNoOverlap (mode : Nat) (parts : List PartIn) : Prop :=
+  ∀ tcs, mapToTrackChannel mode (noteKeys parts) = some tcs →
+    ∀ tr, (routedRows ((noteKeys parts).zip tcs) parts tr).Pairwise MusCompat
+
+def pairwiseB {α : Type} (r : α → α → Bool) : List α → Bool
+  | [] => true
+  | a :: as => as.all (r a) && pairwiseB r as
+
+/-- the domain, decided (the driver answers it for every generated score: `dom`) -/
+def scoreNoOverlapB (mode : Nat) (parts : List PartIn) : Bool :=
+  match mapToTrackChannel mode (noteKeys parts) with
+  | none => true
+  | some tcs =>
+    (List.range ((tcs.map (·.1)).foldl max 0 + 1)).all fun tr =>
+      pairwiseB (fun m n => decide (MusCompat m n)) (routedRows ((noteKeys parts).zip tcs) parts tr)
+
 end Model.ScoreMidi
